@@ -146,15 +146,17 @@ def keep(pep, p, strict=True):
 
 
 def digest(protein:str, p:dict, m_removal=True, strict=True, closed=True, min_end=None,
-        spans=False):
+        spans=False, site_list=None):
     """ all digestion products with <= miscleavage missed sites that pass the filters.
     p: dict(rule, exception, miscleavage, min_length, max_length, min_mw)
     m_removal: the first product is also reported without its leading M
     closed=False: the C-terminal end is open (no stop seen): products touching it are dropped
     min_end: only products ending after this residue index
-    spans: return {(start, end, peptide)} instead of {peptide} """
-    ss = sorted(set([0] + [s for s in sites(protein, p['rule'], p.get('exception'))
-        if 0 < s < len(protein)] + [len(protein)]))
+    spans: return {(start, end, peptide)} instead of {peptide}
+    site_list: cleavage sites to use instead of those of `protein` read in isolation """
+    if site_list is None:
+        site_list = sites(protein, p['rule'], p.get('exception'))
+    ss = sorted(set([0] + [s for s in site_list if 0 < s < len(protein)] + [len(protein)]))
     out = set()
     for i in range(len(ss) - 1):
         for j in range(i + 1, min(i + p['miscleavage'] + 1, len(ss) - 1) + 1):
@@ -169,6 +171,27 @@ def digest(protein:str, p:dict, m_removal=True, strict=True, closed=True, min_en
             for st, c in cands:
                 if c and keep(c, p, strict):
                     out.add((st, ss[j], c) if spans else c)
+    return out
+
+
+def context_site_lists(prot, ups, downs, rule, exception=None):
+    """ distinct cleavage-site lists of `prot` when its bonds are judged with flanking context:
+    each combination of an upstream string from `ups` and a downstream string from `downs`
+    ('' = read in isolation, which is always included, as None, first). The graph-based
+    commands see the in-frame translation of the 5' flank and the stop symbol, the
+    sequence-based digestion sees neither; rules with multi-residue windows (caspases,
+    thrombin, pepsin, ...) can differ near the two ends """
+    base = sites(prot, rule, exception)
+    out = [None]
+    seen = {tuple(base)}
+    for up in set(ups) | {''}:
+        for down in set(downs) | {''}:
+            n = len(up)
+            sl = [x - n for x in sites(up + prot + down, rule, exception)
+                if n < x < n + len(prot)]
+            if tuple(sl) not in seen:
+                seen.add(tuple(sl))
+                out.append(sl)
     return out
 
 
